@@ -447,6 +447,93 @@ Definition ob_dial_frame : bool :=
                     && no_excl cfg_mutex (inst 0 cfg_obj (fun _ => []) p))
           (dial_paths ++ send_single_paths).
 
+(* ---- inventories of the translator: setters, unlocked reads, smtp.Client level, ownership ---- *)
+Definition acc_rec : Type := (list N * list N * list (list N) * list (list N))%type.   (* method, field, excl, shared *)
+Definition written_by_any_method (f : lname) : bool :=
+  existsb (fun w : acc_rec => match w with (_, g, _, _) => bytes_eqb f g end) client_all_writes.
+(* A read of a Client field on an in-scope path (DialWithContext / DialAndSend / Send / Close / Reset and the
+   ...WithSMTPClient variants) that is NOT under c.mutex is harmless only if no method of Client ever assigns
+   the field after construction (e.g. c.connTimeout in checkConn / CloseWithSMTPClient: only the option
+   WithTimeout, run inside NewClient, sets it), or if it is c.smtpClient, which the property's own
+   precondition ("one established connection") fixes before the concurrent phase — see
+   [ob_smtpclient_single_writer]. *)
+Definition ob_unlocked_reads_stable : bool :=
+  negb (Nat.eqb (length client_inscope_reads) 0)
+  && forallb (fun r : acc_rec => match r with (_, f, ex, rd) =>
+       holds is_cfg_mutex ex || holds is_cfg_mutex rd || negb (written_by_any_method f) || name_is "c.smtpClient" f end)
+     client_inscope_reads.
+Definition ob_smtpclient_single_writer : bool :=
+  forallb (fun w : acc_rec => match w with (fn, f, ex, _) =>
+       negb (name_is "c.smtpClient" f) || (name_is "Client.DialWithContext" fn && holds is_cfg_mutex ex) end)
+     client_all_writes.
+(* OBSERVATION, not an obligation (setters are outside the letter of C13): assignments by methods outside
+   the in-scope paths that do not hold c.mutex although a dial/send path reads the field under RLock *)
+Definition read_in_scope (f : lname) : bool :=
+  existsb (fun r : acc_rec => match r with (_, g, _, _) => bytes_eqb f g end) client_inscope_reads.
+Definition unlocked_setter_writes : list (lname * lname) :=
+  flat_map (fun w : acc_rec => match w with (fn, f, ex, _) =>
+     if negb (holds is_cfg_mutex ex) && read_in_scope f then [(fn, f)] else [] end) client_all_writes.
+
+(* OBSERVATION: in-scope reads performed while c.mutex is read-held TWICE by the calling chain (recursive RLock:
+   sendSingleMsg -> ResetWithSMTPClient -> checkConn).  With sync.RWMutex a writer arriving between the two RLocks
+   (any c.mutex.Lock caller: SetDebugLog, SetLogger, DialWithContext) deadlocks both; no in-scope path takes
+   c.mutex exclusively after the connection is established, so this stays outside the property. *)
+Definition recursive_rlock_reads : list (lname * lname) :=
+  flat_map (fun r : acc_rec => match r with (fn, f, _, rd) =>
+     if Nat.leb 2 (length (filter is_cfg_mutex rd)) then [(fn, f)] else [] end) client_inscope_reads.
+
+(* package smtp: c.Text (the textproto pipeline) is only used with smtp.Client.mutex held exclusively and
+   c.conn with the mutex held, in EVERY method of smtp.Client; the fields that some method accesses without
+   the mutex are exactly the listed ones (they are protected by the outer sendMutex bracket on the shared
+   connection and by ownership on a private one, not by the inner mutex) *)
+Definition smtp_unlocked_known : list string :=
+  ["smtp:c.ext"; "smtp:c.didHello"; "smtp:c.helloError"; "smtp:c.dsnrntype"; "smtp:c.localName";
+   "smtp:c.auth"; "smtp:c.serverName"; "smtp:c.tls"; "smtp:c.debug"; "smtp:c.logger"]%string.
+Definition ob_smtp_text_conn_locked : bool :=
+  existsb (fun a : acc_rec => match a with (_, f, _, _) => name_is "smtp:c.Text" f end) smtp_client_accesses
+  && forallb (fun a : acc_rec => match a with (_, f, ex, rd) =>
+       if name_is "smtp:c.Text" f then holds is_smtp_mutex ex
+       else if name_is "smtp:c.conn" f then holds is_smtp_mutex ex || holds is_smtp_mutex rd
+       else holds is_smtp_mutex ex || holds is_smtp_mutex rd || existsb (fun s => name_is s f) smtp_unlocked_known end)
+     smtp_client_accesses.
+
+(* ownership: on the DialAndSend path the *smtp.Client never escapes — it is defined from
+   DialToSMTPClientWithContext (there: from smtp.NewClient, and returned), used as the receiver of method
+   calls, compared with nil and passed to direct calls of Client methods (analysed transitively) only *)
+Definition ob_private_client_owned : bool :=
+  forallb (fun u : lname * lname => match u with (fn, use) =>
+       negb (is_prefix (bs "escape") use)
+       && (negb (name_is "return" use) || name_is "Client.DialToSMTPClientWithContext" fn) end) smtp_client_var_uses
+  && existsb (fun u : lname * lname => match u with (fn, use) =>
+       name_is "Client.DialAndSendWithContext" fn && name_is "def:c.DialToSMTPClientWithContext" use end) smtp_client_var_uses
+  && existsb (fun u : lname * lname => match u with (fn, use) =>
+       name_is "Client.DialToSMTPClientWithContext" fn && name_is "def:smtp.NewClient" use end) smtp_client_var_uses
+  && existsb (fun u : lname * lname => match u with (fn, use) =>
+       name_is "Client.DialAndSendWithContext" fn && name_is "arg:c.SendWithSMTPClient" use end) smtp_client_var_uses.
+
+(* model level: objects guarded by m, used by the exclusivity theorem *)
+Definition guarded_by (prot : obj -> protection) (m : N) (e : event) : bool :=
+  match access e with
+  | Some (o, _) => match prot o with Guarded m' => N.eqb m' m | _ => false end
+  | None => false
+  end.
+Definition no_rlock (m : N) (t : list event) : bool :=
+  forallb (fun e => match e with RLock x => negb (N.eqb x m) | _ => true end) t.
+Definition no_rlock_h (m : N) (t : hthread) : bool :=
+  forallb (fun x => match x with Some (RLock y) => negb (N.eqb y m) | _ => true end) t.
+Definition ob_send_no_rlock : bool :=
+  forallb (fun p => no_rlock_h send_mutex (inst_h 0 cfg_obj p)) send_paths.
+Definition no_private (prot : obj -> protection) (t : list event) : bool :=
+  forallb (fun e => match access e with
+                    | Some (o, _) => match prot o with Private => false | _ => true end
+                    | None => true end) t.
+(* the inner level alone: connection k and its smtp.Client guarded by smtp.Client.mutex *)
+Definition prot_inner (o : obj) : protection :=
+  match o with
+  | OConn k => Guarded (smtp_mutex k)
+  | OMem x => if N.eqb x cfg_obj then ReadOnly else if N.eqb x (smtp_obj 0) then Guarded (smtp_mutex 0) else Private
+  end.
+
 (* ---------------------------------------------------------------------------------------------
    Concrete bodies used by the examples, the refutation witness and the correspondence check. *)
 (* one smtp command = one execution of smtp.Client.cmd (its longest generated path) for connection k,
